@@ -188,19 +188,19 @@ func Ite(c, a, b Term) Term {
 
 // Universe: everything declared for the SMT side, derived from Go types on demand.
 type Universe struct {
-	sorts    map[string]*Sort // by canonical Go type string
-	byName   map[string]*Sort
-	order    []*Sort // declaration order (dependencies first)
-	seqs     map[string]*Sort
-	tags     map[string]int // Go type string -> tag number
-	tagTypes []types.Type
-	boxes    map[string]*Sort // box function suffix -> payload sort
-	heaps    map[string]string // heap name -> SMT sort of the array
-	decls    []string          // extra declarations (consts, funs), in order
-	declSet  map[string]bool
-	fresh    int
-	funs     map[string]*FunSig // spec functions from preludes + generated
-	axioms   []Axiom
+	sorts     map[string]*Sort // by canonical Go type string
+	byName    map[string]*Sort
+	order     []*Sort // declaration order (dependencies first)
+	seqs      map[string]*Sort
+	tags      map[string]int // Go type string -> tag number
+	tagTypes  []types.Type
+	boxes     map[string]*Sort  // box function suffix -> payload sort
+	heaps     map[string]string // heap name -> SMT sort of the array
+	decls     []string          // extra declarations (consts, funs), in order
+	declSet   map[string]bool
+	fresh     int
+	funs      map[string]*FunSig // spec functions from preludes + generated
+	axioms    []Axiom
 	ifaceImpl func(types.Type) []types.Type // closed-world implementations of an interface
 }
 
@@ -246,7 +246,9 @@ func sanitize(s string) string {
 	return b.String()
 }
 
-func shortTypeName(t types.Type) string { return canonType(t, func(p *types.Package) string { return p.Name() }) }
+func shortTypeName(t types.Type) string {
+	return canonType(t, func(p *types.Package) string { return p.Name() })
+}
 
 // canonType prints a type with every alias resolved (so map[string]types.Object and map[string]any coincide)
 func canonType(t types.Type, q types.Qualifier) string {
